@@ -253,6 +253,8 @@ def read_observe(chunks):
         return ('eof',), sock
     except RequestLengthMismatch as e:
         return ('short', e.expected, e.received), sock
+    except Exception as e:           # not a behaviour the model has: shows up as a disagreement
+        return ('unexpected', type(e).__name__), sock
     return ('ok', bytes(data.buffer)), sock
 
 
@@ -261,6 +263,8 @@ def fres_coq(obs, sock):
         return '(FOk %s %s)' % (D.cp.byts(obs[1]), D.cp.lst(sock.chunks, D.cp.byts))
     if obs[0] == 'eof':
         return 'FEof'
+    if obs[0] == 'unexpected':
+        return '(FShort (-1) (-1))'
     return '(FShort %s %s)' % (D.cp.z(obs[1]), D.cp.z(obs[2]))
 
 
